@@ -2,10 +2,10 @@ package logger
 
 import (
 	"bytes"
+	"encoding/json"
 	"fmt"
 	"io"
 	"os"
-	"strconv"
 	"time"
 
 	"golang.org/x/term"
@@ -35,7 +35,8 @@ func (d *destinationStdout) log(t time.Time, level Level, format string, args ..
 		d.buf.WriteString(`","level":"`)
 		writeLevel(&d.buf, level, false)
 		d.buf.WriteString(`","message":`)
-		d.buf.WriteString(strconv.Quote(fmt.Sprintf(format, args...)))
+		msg, _ := json.Marshal(fmt.Sprintf(format, args...))
+		d.buf.Write(msg)
 		d.buf.WriteString(`}`)
 		d.buf.WriteByte('\n')
 	} else {
